@@ -240,7 +240,10 @@ def run_e2e(res, tier, seed, tag, n_crates, cfg, flavours=("td_string", "td_disp
     projs = [projects.gen_valid_project(rng, cfg) for _ in range(n_crates)]
     ptable = workload.plural_table_for(projs)
     for i, p in enumerate(projs):
-        c = e2e.ProbeCrate("%s_%d" % (tag.replace("-", "_"), i), p, fmt=fmts[i % len(fmts)])
+        fmt = fmts[i % len(fmts)]
+        if fmt == "json5" and has_int_beyond_i64(gen.project_to_jsonable(p)):
+            fmt = "json"      # the json5 crate reads integers as i64 only: such a project cannot be written in that format
+        c = e2e.ProbeCrate("%s_%d" % (tag.replace("-", "_"), i), p, fmt=fmt)
         add_e2e_observations(c, p, ptable, rng, n_assign, flavours)
         crates.append(c)
     root = e2e.write_workspace(tag, crates, seed=seed)
